@@ -190,10 +190,16 @@ class Svc:
     return cut
 
   def rpc_cfg(self, fi: FuncInfo) -> cfgmod.CFG:
-    """CFG of a servicer method with no-return calls cut (normal flow only)."""
+    """CFG of a servicer method with no-return calls cut, plus conservative try->handler edges."""
     if fi.qualname not in self._cfgs:
       g = cfgmod.CFG(fi.node)
       g.terminators = self._cut_terminators(g, fi, 0)  # type: ignore[attr-defined]
+      # handler bodies must be analysed too: every node of a try body may raise into every
+      # handler of its enclosing try statements (conservative may-edges; the precise raise
+      # model is C06's).  Terminator nodes keep these edges: their exception may be caught.
+      g.add_exception_edges(
+          lambda n: ['*'] if any(part == 'body' for _, part in n.trys) and n.kind in ('stmt', 'test', 'for', 'with') else [],
+          lambda h, exc, n: 'may')
       self._cfgs[fi.qualname] = g
     return self._cfgs[fi.qualname]
 
